@@ -21,7 +21,9 @@ fn input<'a>(commands: Vec<&'a String>) -> HandleRunInput<'a> {
 async fn vf_group_rendezvous() {
     // C16: every member of a group waits until all members have started; the group must complete for any size
     let (mut checked, mut bad) = (0u64, 0u64);
-    for (n, noisy) in [(2usize, false), (12, false), (40, false), (3, true)] {
+    // the last case: 300 members that report progress on stderr for ~3 s (no rendezvous): more flushes than a compressor channel
+    // holds (1000), so stderr must be drained while the group runs
+    for (n, noisy) in [(2usize, false), (12, false), (40, false), (3, true), (300, false)] {
         checked += 1;
         let td = crate::core::testing::new_testdir().unwrap();
         let wp = td.path();
@@ -29,10 +31,11 @@ async fn vf_group_rendezvous() {
         std::fs::create_dir_all(&marks).unwrap();
         let mut targets = vec![];
         for i in 0..n {
-            let t = format!("t{:02}", i);
+            let t = format!("t{:03}", i);
             // noisy: a member fills far more than a pipe buffer on stderr (and some stdout) BEFORE it checks in - its output must be
             // drained concurrently, or it never reaches the rendezvous
             let pre = if noisy { "head -c 300000 /dev/zero | tr '\\0' 'e' 1>&2\necho started\n" } else { "" };
+            if n == 300 { script(&wp.join(&t).join("monorail/cmd"), "meet.sh", "for k in 1 2 3 4 5 6 7; do echo \"progress $k\" 1>&2; sleep 0.45; done\nexit 0"); targets.push(format!("{{\"path\":\"{}\"}}", t)); continue; }
             script(&wp.join(&t).join("monorail/cmd"), "meet.sh", &format!(
                 "{pre}touch '{m}/{t}'\nfor k in $(seq 1 160); do c=$(ls '{m}' | wc -l); if [ \"$c\" -ge {n} ]; then exit 0; fi; sleep 0.05; done\nexit 1", m = marks.display(), t = t, n = n, pre = pre));
             targets.push(format!("{{\"path\":\"{}\"}}", t));
